@@ -381,4 +381,75 @@ theorem snap_uheld_stepU (cfg : Cfg) (cache) (σ σ' : State) (k : Nat) (arg : C
     rw [stepU_cache_locked cfg σ σ' k arg hs m p (by simp [h1])]
     exact hI.uheld k' m p e h
 
+theorem snap_pend_stepU (cfg : Cfg) (cache) (σ σ' : State) (k : Nat) (arg : Conn) (hI : SnapInv cfg cache σ)
+    (hs : stepU cfg σ k arg = some σ') :
+    ∀ c A, owed cfg (σ'.hpc c) = some A → PendOk ((snapAfter cfg cache σ'.trace).pend c) A := by
+  have hpend := hI.pend
+  intro c A hA
+  unfold stepU at hs
+  step_cases hs
+  all_goals
+    have h0 := hpend c A hA
+    try dsimp only
+    try split
+    all_goals
+      try rw [snapAfter_append]
+      first
+      | exact h0
+      | exact pendOk_deliver _ _ _ _ _ _ _ _ h0
+      | (simp only [snapNext_emit_pend, snapNext_emitDone_pend]; exact h0)
+
+theorem snap_acc_stepU (cfg : Cfg) (cache) (σ σ' : State) (k : Nat) (arg : Conn) (hI : SnapInv cfg cache σ)
+    (hs : stepU cfg σ k arg = some σ') : SnapAcc cfg cache σ'.trace := by
+  have hacc := hI.acc
+  have hcur := hI.cur
+  have hheld := hI.uheld k
+  unfold stepU at hs
+  step_cases hs
+  all_goals (try exact hacc)
+  all_goals
+    try dsimp only
+    try split
+    all_goals
+      try exact hacc
+      rw [snapAcc_append]
+      refine ⟨hacc, ?_⟩
+      try (simp [snapOk]; done)
+  all_goals
+    rename_i m p e x l heq hmem
+    simp only [snapOk, hcur]
+    rw [hheld m p e (by rw [heq]; rfl)]
+    simp
+
+theorem snapInv_stepU (cfg : Cfg) (cache) (σ σ' : State) (k : Nat) (arg : Conn) (hL : LockInv σ)
+    (hI : SnapInv cfg cache σ) (hs : stepU cfg σ k arg = some σ') : SnapInv cfg cache σ' :=
+  ⟨snap_acc_stepU cfg cache σ σ' k arg hI hs, snap_cur_stepU cfg cache σ σ' k arg hI hs,
+   snap_uheld_stepU cfg cache σ σ' k arg hL hI hs, snap_hheld_stepU cfg cache σ σ' k arg hL hI hs,
+   snap_pend_stepU cfg cache σ σ' k arg hI hs⟩
+
+/-! ## all reachable states -/
+
+theorem snapInv_step (cfg : Cfg) (cache) (σ σ' : State) (a : Act) (hL : LockInv σ) (hI : SnapInv cfg cache σ)
+    (hs : step cfg σ a = some σ') : SnapInv cfg cache σ' := by
+  unfold step at hs
+  split at hs
+  · exact snapInv_stepH cfg cache σ σ' _ hL hI hs
+  · exact snapInv_stepU cfg cache σ σ' _ _ hL hI hs
+
+theorem snapInv_reach (cfg : Cfg) (hs us cache) (σ : State) (h : Reach cfg (init hs us cache) σ) :
+    SnapInv cfg cache σ := by
+  induction h with
+  | init => exact snapInv_init cfg hs us cache
+  | step a hr hstep ih => exact snapInv_step cfg cache _ _ a (lockInv_reach cfg hs us cache _ hr) ih hstep
+
+/-- C08 `SnapshotComplete`, on every reachable state: each delivered update carries the cache's value of that
+moment, and at each `active` reply every exported parameter of the scope has been delivered since the marker -/
+theorem snapshot_reach (cfg : Cfg) (hs us cache) (σ : State) (h : Reach cfg (init hs us cache) σ) :
+    (snapMon cfg cache).acceptsFrom (snapMon cfg cache).init σ.trace = true :=
+  (snapInv_reach cfg hs us cache σ h).acc
+
+theorem snapshotComplete_reach (cfg : Cfg) (hs us cache) (σ : State) (h : Reach cfg (init hs us cache) σ) :
+    SnapshotComplete cfg cache σ.trace :=
+  snapshot_reach cfg hs us cache σ h
+
 end Frappy.Activate
